@@ -4,13 +4,13 @@
 # given checks against it (VERIF_REPO mode).  /repo itself is not touched.
 set -u
 PATCH=$1; shift
-WT=/tmp/seedtest-wt
+WT=${SEEDWT:-/tmp/seedtest-wt}
 if [ ! -d $WT ]; then git -C /repo worktree add -q --detach $WT HEAD || exit 2; fi
 git -C $WT checkout -q --detach ${BASE:-$(git -C /repo rev-parse HEAD)} 2>/dev/null
 git -C $WT reset -q --hard ; git -C $WT clean -qfd -e target
 [ -f $WT/Cargo.lock ] || cp /repo/Cargo.lock $WT/Cargo.lock
-if ! git -C $WT apply --3way "$PATCH" 2>/tmp/seedtest-apply.err && ! git -C $WT apply "$PATCH" 2>>/tmp/seedtest-apply.err; then
-  echo "SEEDTEST: patch does not apply: $(head -3 /tmp/seedtest-apply.err)"; exit 3; fi
+if ! git -C $WT apply --3way "$PATCH" 2>$WT.apply.err && ! git -C $WT apply "$PATCH" 2>>$WT.apply.err; then
+  echo "SEEDTEST: patch does not apply: $(head -3 $WT.apply.err)"; exit 3; fi
 for c in "$@"; do
   out=$(cd /verif && VERIF_REPO=$WT ./check $c --tier ${TIER:-quick} 2>&1); rc=$?
   nsig=$(echo "$out" | grep -c "^VIOLATION")
